@@ -324,7 +324,7 @@ class MailboxWorld:
     explored={kinds}, coarse={client indexes whose up/down run eagerly},
     welcome={...}, reorder=int, dup=int, acks=bool, initial_fail=bool"""
 
-    KINDS = ("nconn_ok", "nconn_fail", "ndeliver", "nclose", "nlose", "ntimer", "down", "up", "api", "raw", "turn", "connect", "stopfin", "reorder", "dup", "srverr", "drop", "hsfail", "connfail", "junk", "wsclosing")
+    KINDS = ("nconn_ok", "nconn_fail", "ndeliver", "nclose", "nlose", "ntimer", "down", "up", "api", "raw", "turn", "connect", "stopfin", "reorder", "dup", "srverr", "drop", "hsfail", "connfail", "junk", "wsclosing", "tcpconn", "negabort")
 
     def __init__(self, cfg, seed=0):
         self.cfg = cfg
@@ -408,6 +408,10 @@ class MailboxWorld:
         c = [c for c in self.clients if c.svc is svc]
         c = c[0] if c else None
         d = defer.Deferred()
+        if c is not None and (getattr(c, "negotiating", False) or getattr(c, "neg_waiters", None)):
+            # stopService while the first connection is still negotiating: fires once the transport has gone (negabort)
+            c.neg_waiters.append(d)
+            return d
         if c is not None and c.conn is not None and c.conn.open:
             c.conn.stopping = True
             c.conn.down.clear()       # plain TCP: loseConnection stops reading
@@ -462,8 +466,19 @@ class MailboxWorld:
             if c.clock.calls and c.clock.calls[0].getTime() <= c.clock.seconds():
                 evs.append(("turn", c.ci))
         for c in self.clients:
-            if c.svc.running and (c.conn is None or not c.conn.open):
+            if c.svc.running and (c.conn is None or not c.conn.open) and not getattr(c, "negotiating", False):
                 evs.append(("connect", c.ci))
+        if self.cfg.get("negotiation"):
+            # the first connection in two steps: TCP established (ClientService holds a protocol, the WebSocket upgrade request is on
+            # its way), then the server's answer (= the ordinary `connect` event).  If the application stops the service in
+            # between, the transport is closed and Autobahn reports onClose without onOpen (negabort).
+            for c in self.clients:
+                if c.svc.running and not c.ever_connected and c.conn is None and not getattr(c, "negotiating", False) and not getattr(c, "failed", False):
+                    evs.append(("tcpconn", c.ci))
+                if getattr(c, "negotiating", False) and c.svc.running:
+                    evs.append(("connect", c.ci))
+                if getattr(c, "negotiating", False) and c.svc.stopped:
+                    evs.append(("negabort", c.ci))
         for c in self.clients:
             if c.conn and c.conn.open and c.conn.stopping:
                 evs.append(("stopfin", c.ci))
@@ -646,7 +661,17 @@ class MailboxWorld:
                 call.func(*call.args, **call.kw)
             except Exception as e:   # Twisted's reactor would log this
                 self.errors.append((type(e).__name__, str(e)[:160], "delayedcall:%s" % getattr(call.func, "__qualname__", "?")))
+        elif kind == "tcpconn":
+            c.negotiating = True
+            c.neg_waiters = []
+        elif kind == "negabort":
+            c.negotiating = False
+            self._guard("ws_close", c, c.boss._RC.ws_close, False, 1006, "connection was closed uncleanly (peer dropped the TCP connection without previous WebSocket closing handshake)")
+            ws, c.neg_waiters = c.neg_waiters, []
+            for d in ws:           # ClientService fires its stop waiters in registration order
+                d.callback(None)
         elif kind == "connect":
+            c.negotiating = False
             self._connect(c)
         elif kind == "stopfin":
             self._stopfin(c, process_uplink=True)
@@ -943,7 +968,7 @@ class MailboxWorld:
             timers = tuple((round(dc.getTime() - c.clock.seconds(), 6), getattr(dc.func, "__qualname__", "?"))
                            for dc in c.clock.calls)
             parts.append((c.ci, tuple(c.pc), c.drops_left, c.ever_connected, getattr(c, "failed", False),
-                          c.svc.running, c.svc.stopped, c.svc.stop_d is not None,
+                          c.svc.running, c.svc.stopped, c.svc.stop_d is not None, getattr(c, "negotiating", False), len(getattr(c, "neg_waiters", ())),
                           conn_img, timers,
                           tuple(json.dumps(m, sort_keys=True) for m in c.delivered_msgs()) if self.dup_left else (),
                           im.img(c.boss), im.img(c.app), im.img(c.ghost)))
